@@ -64,11 +64,13 @@ end
 
 mutual
 /-- key types: the canonical form of a value is the value itself (no hash collections, deques,
-skipped fields or init hooks inside), so ordering keys before or after decoding is the same -/
+skipped fields or init hooks inside; ordered sets and maps of key types are fine - their
+representation is already in key order), so ordering keys before or after decoding is the same -/
 def keyTy : Ty → Bool
   | .int _ | .nonzero _ | .float _ | .bool | .str _ | .asciiChar | .raw _ | .custom _ => true
   | .seq k t => k != .vecDeque && keyTy t
-  | .set _ _ | .map _ _ _ => false
+  | .set k t => k == .btreeSet && keyTy t
+  | .map k a b => k == .btreeMap && keyTy a && keyTy b
   | .array _ t => keyTy t
   | .prod k fs => !k.init && keyTyFields fs
   | .sum k vs => !k.init && keyTyVariants vs
